@@ -576,6 +576,8 @@ def pairing(A, R, rule, cls, target, what, exclude=None, field=None):
             else:
                 if tg[0] not in ("self", "obj") or tg == exclude:
                     continue
+                if field is not None and tg[0] == "self" and tg != ("self", field):
+                    continue      # another set of the evaluator (e.g. a maintained running set)
             ops.append(v)
         ws = run.by_kind("write_state")
         for w in ws:
